@@ -403,17 +403,20 @@ impl Bucket {
     /// # Errors
     ///
     /// Returns [`InvalidBucketConfig`] when `max`, `bytes_per_second`, or
-    /// `refill_period` are non-positive, or when the configuration would refill
-    /// less than one token per period.
+    /// `refill_period` are non-positive, when `refill_period` exceeds `u32::MAX`
+    /// milliseconds, or when the configuration would refill less than one token
+    /// per period.
     pub fn new(
         max: i64,
         bytes_per_second: i64,
         refill_period: time::Duration,
     ) -> Result<Self, InvalidBucketConfig> {
-        // milliseconds is the tokio timer resolution
-        let refill = bytes_per_second.saturating_mul(refill_period.as_millis() as i64) / 1000;
+        // milliseconds is the tokio timer resolution; the refill arithmetic counts periods in
+        // `u32` milliseconds, so a period that does not fit is rejected like a zero period.
+        let refill_period_ms = u32::try_from(refill_period.as_millis()).unwrap_or(0);
+        let refill = bytes_per_second.saturating_mul(refill_period_ms as i64) / 1000;
         ensure!(
-            max > 0 && bytes_per_second > 0 && refill_period.as_millis() as u32 > 0 && refill > 0,
+            max > 0 && bytes_per_second > 0 && refill_period_ms > 0 && refill > 0,
             InvalidBucketConfig {
                 max,
                 bytes_per_second,
